@@ -172,13 +172,40 @@ static void issue_batch_r(dbh_t *h, int nupd_hint, vrng_t *rg, uint8_t *vb, int 
   int i, n = nupd_hint, id = b->id;
   ldb_slice_t k, v;
   uint64_t idv = (uint64_t)id;
+  int boundary = (nupd_hint < 0);
+  uint32_t boundary_vlen = 0;
+  if (boundary) {
+    /* one marker + one put whose value length makes the WAL record end exactly at the end of a 32 KiB block
+       (or one byte before / after it): marker entry 21 bytes, put entry 7 + varint(vlen) + vlen, batch header 12 */
+    size_t oi, no = iom_nobjs();
+    uint64_t best = 0, off = 0, pos, left, P;
+    int d = (int)vr_uniform(rg, 4) - 1;          /* -1, 0, +1, +2 -> 0 twice as likely below */
+    if (d == 2) d = 0;
+    for (oi = 0; oi < no; oi++) {
+      const iom_obj_t *o = iom_obj((int)oi);
+      if (o != NULL && o->pc == PC_LOG && o->num >= best) { best = o->num; off = o->len; }
+    }
+    pos = off % 32768; left = 32768 - pos;
+    if (left < 7) left = 32768;
+    P = left - 7;
+    if (P < 60 + 2) P += 32761;                   /* too little room in this block: FIRST here, LAST fills the next */
+    P = (uint64_t)((int64_t)P + d);
+    {
+      uint64_t rest = P - 40;                     /* = varint(vlen) + vlen */
+      boundary_vlen = (uint32_t)(rest - (rest - 1 < 128 ? 1 : rest - 2 < 16384 ? 2 : 3));
+    }
+    if (boundary_vlen > MAXV) boundary = 0;
+    n = 1;
+    vh_count("boundary_batches", boundary ? 1 : 0);
+  }
   b->nupd = n;
   b->writer = w;
   b->upd = calloc((size_t)n + 1, sizeof(upd_t));
-  b->sync = vr_chance(rg, W > 1 ? 400 : 300);
+  b->sync = boundary ? 0 : vr_chance(rg, W > 1 ? 400 : 300);
   /* marker first or last or in the middle: position must not matter */
   {
     int mpos = n == 0 ? 0 : (int)vr_uniform(rg, (uint32_t)n + 1);
+    if (keypad > 0) boundary = 0;
     for (i = 0; i <= n; i++) {
       if (i == mpos) {
         k = ldb_slice(kb, marker_key(kb, id));
@@ -188,12 +215,13 @@ static void issue_batch_r(dbh_t *h, int nupd_hint, vrng_t *rg, uint8_t *vb, int 
       if (i < n) {
         upd_t *u = &b->upd[i];
         u->key = (int)vr_uniform(rg, NKEYS / W) * W + w;
-        u->del = vr_chance(rg, 150);
+        u->del = boundary ? 0 : vr_chance(rg, 150);
         k = ldb_slice(kb, data_key(kb, u->key));
         if (u->del) {
           ldb_batch_del(wb, &k);
         } else {
           u->vlen = n > 40 ? 8 + vr_uniform(rg, 120) : data_vlen_r(rg);
+          if (boundary) u->vlen = boundary_vlen;
           u->vid = make_vid(id, i, (int)(vr_next(rg) & 1));
           vh_fill_value(vb, u->vlen, u->vid);
           v = ldb_slice(vb, u->vlen);
@@ -209,6 +237,15 @@ static void issue_batch_r(dbh_t *h, int nupd_hint, vrng_t *rg, uint8_t *vb, int 
   iom_mark(MK_ACK, (uint64_t)id, (uint64_t)b->rc);
   b->ev_ack = iom_nevents() - 1;
   b->acked = (b->rc == LDB_OK);
+  if (boundary) {
+    size_t oi, no = iom_nobjs();
+    uint64_t best = 0, off = 1;
+    for (oi = 0; oi < no; oi++) {
+      const iom_obj_t *o = iom_obj((int)oi);
+      if (o != NULL && o->pc == PC_LOG && o->num >= best) { best = o->num; off = o->len; }
+    }
+    if (off % 32768 == 0 && off > 0) vh_count("boundary_batches_ending_exactly_at_a_block_end", 1);
+  }
   ldb_batch_destroy(wb);
   if (b->rc != LDB_OK) vh_fatal("workload write failed rc=%d on a healthy file system", b->rc);
 }
@@ -235,7 +272,7 @@ static void run_workload(dbh_t *h, int n, int allow_reopen) {
   int compact_at = (int)vr_uniform(&R, (uint32_t)n + 1);
   writer_tid = iom_tid();
   for (i = 0; i < n; i++) {
-    issue_batch(h, batch_size_hint());
+    issue_batch(h, (keypad == 0 && vr_chance(&R, 40)) ? -1 : batch_size_hint());
     if (i == compact_at) {
       ldb_test_compact_memtable(h->db);
       ldb_test_compact_range(h->db, 0, NULL, NULL);
